@@ -1,6 +1,839 @@
-//! Harness for property C15 (stub: not built yet).
+//! Harness for property C15 — KIP parsing is total, bounded, deterministic and classifies by content.
+//!
+//! * generator: grammar-derived KQL / KML / META sentences (`gen.rs`), token-level and
+//!   character-level mutations, arbitrary Unicode, nests around and beyond the depth limit,
+//!   inputs around and beyond the length limit (`mutate.rs`);
+//! * real code: `anda_kip::{parse_kip, parse_kql, parse_kml, parse_meta, parse_json,
+//!   validate_command}` in a child process of this binary, every parse under `catch_unwind` on a
+//!   thread with a small fixed stack, with a wall-clock bound enforced by the parent (`child.rs`);
+//! * correspondence: budget verdict and family against the Lean model (`drv_c15`);
+//! * oracle (independent of the model): see `child.rs::parse_all` / `serde_checks` and the
+//!   metamorphic comparisons in `run_case` below.
+//!
+//! Line protocol of a case (what the corpus stores and a replay carries):
+//!   mode raw                 the input is the concatenation of the chunks that follow
+//!     b <hex>                a chunk (UTF-8 bytes in hex)
+//!     rep <n> <hex>          a chunk repeated n times
+//!   mode tok <flags>         the input is a token list; flags: `m` trivia metamorphism applies,
+//!                            `c` keyword tokens stand in keyword positions (case metamorphism applies)
+//!     t K <hex> | t T <hex>  a keyword token / any other token
+//! The Lean driver is asked `k <hex of a rendered input> <non-ASCII alphanumerics>` per evaluated string.
+
+mod child;
+mod grammar;
+mod mutate;
+
+use grammar::{Gen, Tok};
+use std::collections::BTreeMap;
+use std::io::{BufRead, BufReader, Write};
+use std::process::{Child, ChildStdin, Command, Stdio};
+use std::sync::mpsc::{Receiver, RecvTimeoutError, channel};
+use std::time::{Duration, Instant};
+use vh_common::serde_json::{Value, json};
+use vh_common::{Args, ModelProc, Report, Rng, hex, read_corpus, read_replay, shrink};
+
+/// Stack of the thread the real parser runs on. Rust's default for spawned threads (and for tokio
+/// workers, which is where the servers call the parser) is 2 MiB; the check allows a quarter of it.
+const PARSER_STACK: usize = 512 * 1024;
+/// Wall-clock bound for one input at all five entry points (plus re-validation, re-parse with a
+/// trailing token, clone/drop, serde round trip). A first timeout is retried once with three times
+/// the bound on a fresh child (the machine may be loaded); only the second one is a failure.
+const EVAL_TIMEOUT: Duration = Duration::from_secs(20);
+
+// ---------------------------------------------------------------------------------------------
+// child process
+// ---------------------------------------------------------------------------------------------
+
+struct ChildProc {
+    child: Child,
+    stdin: ChildStdin,
+    rx: Receiver<String>,
+    stack: usize,
+    pub respawns: u64,
+}
+
+enum EvalErr {
+    Died(String),
+    Timeout,
+}
+
+impl ChildProc {
+    fn spawn(stack: usize) -> ChildProc {
+        let exe = std::env::current_exe().expect("current_exe");
+        let mut child = Command::new(exe).arg("--child").arg(stack.to_string()).stdin(Stdio::piped()).stdout(Stdio::piped()).stderr(Stdio::null()).spawn().expect("spawn child");
+        let stdin = child.stdin.take().unwrap();
+        let stdout = child.stdout.take().unwrap();
+        let (tx, rx) = channel();
+        std::thread::spawn(move || {
+            for line in BufReader::new(stdout).lines() {
+                let Ok(line) = line else { break };
+                if tx.send(line).is_err() {
+                    break;
+                }
+            }
+        });
+        ChildProc { child, stdin, rx, stack, respawns: 0 }
+    }
+    fn restart(&mut self) {
+        let _ = self.child.kill();
+        let _ = self.child.wait();
+        let stack = self.stack;
+        let n = self.respawns + 1;
+        *self = ChildProc::spawn(stack);
+        self.respawns = n;
+    }
+    fn eval(&mut self, x: &str) -> Result<Value, EvalErr> {
+        match self.eval_with(x, EVAL_TIMEOUT) {
+            Err(EvalErr::Timeout) => self.eval_with(x, EVAL_TIMEOUT * 3),
+            r => r,
+        }
+    }
+    fn eval_with(&mut self, x: &str, timeout: Duration) -> Result<Value, EvalErr> {
+        let line = if x.is_empty() { "-".to_string() } else { hex(x.as_bytes()) };
+        let sent = self.stdin.write_all(line.as_bytes()).and_then(|_| self.stdin.write_all(b"\n")).and_then(|_| self.stdin.flush());
+        if sent.is_err() {
+            let st = self.child.wait().map(|s| s.to_string()).unwrap_or_default();
+            self.restart();
+            return Err(EvalErr::Died(st));
+        }
+        match self.rx.recv_timeout(timeout) {
+            Ok(l) => vh_common::serde_json::from_str(&l).map_err(|e| EvalErr::Died(format!("bad child output: {e}"))),
+            Err(RecvTimeoutError::Timeout) => {
+                self.restart();
+                Err(EvalErr::Timeout)
+            }
+            Err(RecvTimeoutError::Disconnected) => {
+                let st = self.child.wait().map(|s| s.to_string()).unwrap_or_default();
+                self.restart();
+                Err(EvalErr::Died(st))
+            }
+        }
+    }
+}
+
+impl Drop for ChildProc {
+    fn drop(&mut self) {
+        let _ = self.child.kill();
+        let _ = self.child.wait();
+    }
+}
+
+// ---------------------------------------------------------------------------------------------
+// cases
+// ---------------------------------------------------------------------------------------------
+
+#[derive(Clone, Debug)]
+enum Case {
+    Raw(String),
+    /// `vseed` fixes the random choices of the metamorphic variants (kept stable while shrinking)
+    Tok { flags: String, vseed: u64, toks: Vec<Tok> },
+    /// inputs that must all parse to the same result
+    Same { key: String, inputs: Vec<String> },
+}
+
+fn case_to_ops(c: &Case) -> Vec<String> {
+    match c {
+        Case::Raw(s) => {
+            let mut ops = vec!["mode raw".to_string()];
+            // runs of one repeated character are stored as `rep`, the rest in small chunks
+            let chars: Vec<char> = s.chars().collect();
+            let mut i = 0;
+            let mut buf = String::new();
+            let flush = |buf: &mut String, ops: &mut Vec<String>| {
+                if !buf.is_empty() {
+                    ops.push(format!("b {}", hex(buf.as_bytes())));
+                    buf.clear();
+                }
+            };
+            while i < chars.len() {
+                let mut j = i;
+                while j < chars.len() && chars[j] == chars[i] {
+                    j += 1;
+                }
+                if j - i >= 24 {
+                    flush(&mut buf, &mut ops);
+                    ops.push(format!("rep {} {}", j - i, hex(chars[i].to_string().as_bytes())));
+                    i = j;
+                } else {
+                    buf.push(chars[i]);
+                    if buf.chars().count() >= 8 {
+                        flush(&mut buf, &mut ops);
+                    }
+                    i += 1;
+                }
+            }
+            flush(&mut buf, &mut ops);
+            ops
+        }
+        Case::Same { key, inputs } => {
+            let mut ops = vec![format!("mode same {key}")];
+            for x in inputs {
+                ops.push(format!("s {}", if x.is_empty() { "-".to_string() } else { hex(x.as_bytes()) }));
+            }
+            ops
+        }
+        Case::Tok { flags, vseed, toks } => {
+            let mut ops = vec![format!("mode tok {} {}", if flags.is_empty() { "-" } else { flags }, vseed)];
+            for t in toks {
+                ops.push(format!("t {} {}", if t.kw { "K" } else { "T" }, hex(t.text.as_bytes())));
+            }
+            ops
+        }
+    }
+}
+
+fn expectation(ops: &[String]) -> Option<String> {
+    ops.iter().find_map(|l| l.strip_prefix("expect ").map(|s| s.trim().to_string()))
+}
+
+fn ops_to_case(ops: &[String]) -> Option<Case> {
+    let ops: Vec<String> = ops.iter().filter(|l| !l.starts_with("expect ")).cloned().collect();
+    let ops = &ops[..];
+    let head: Vec<&str> = ops.first()?.split_whitespace().collect();
+    match head.as_slice() {
+        ["mode", "raw"] => {
+            let mut s = String::new();
+            for l in &ops[1..] {
+                let w: Vec<&str> = l.split_whitespace().collect();
+                match w.as_slice() {
+                    ["b", h] => s.push_str(&child::unhex(h)?),
+                    ["rep", n, h] => {
+                        let n: usize = n.parse().ok()?;
+                        if n > 4_000_000 {
+                            return None;
+                        }
+                        let c = child::unhex(h)?;
+                        for _ in 0..n {
+                            s.push_str(&c);
+                        }
+                    }
+                    _ => return None,
+                }
+            }
+            Some(Case::Raw(s))
+        }
+        ["mode", "same", key] => {
+            let mut inputs = Vec::new();
+            for l in &ops[1..] {
+                let w: Vec<&str> = l.split_whitespace().collect();
+                match w.as_slice() {
+                    ["s", h] => inputs.push(child::unhex(h)?),
+                    _ => return None,
+                }
+            }
+            Some(Case::Same { key: key.to_string(), inputs })
+        }
+        ["mode", "tok", flags, vseed] => {
+            let vseed: u64 = vseed.parse().ok()?;
+            let mut toks = Vec::new();
+            for l in &ops[1..] {
+                let w: Vec<&str> = l.split_whitespace().collect();
+                match w.as_slice() {
+                    ["t", k, h] => toks.push(Tok { kw: *k == "K", text: child::unhex(h)? }),
+                    _ => return None,
+                }
+            }
+            Some(Case::Tok { flags: flags.replace('-', ""), vseed, toks })
+        }
+        _ => None,
+    }
+}
+
+
+// ---------------------------------------------------------------------------------------------
+// evaluation of a case
+// ---------------------------------------------------------------------------------------------
+
+#[derive(Default, Clone)]
+struct Outcome {
+    canon: String,
+    nontrivial: bool,
+    hits: Vec<String>,
+    /// (what, model, impl)
+    disagreements: Vec<(String, String, String)>,
+    /// (key, what, expected, observed)
+    failures: Vec<(String, String, String, String)>,
+    model_compared: u64,
+    strings: u64,
+    max_micros: u64,
+    sample: Option<Value>,
+    /// parse_kip's answer for the base input
+    base_result: String,
+}
+
+struct Worker {
+    child: ChildProc,
+    model: Option<ModelProc>,
+    /// failures shrunk so far, per key (shrinking is expensive: the first few of a kind only)
+    shrunk_per_key: BTreeMap<String, u32>,
+    located_per_key: BTreeMap<String, u32>,
+}
+
+#[derive(Clone)]
+struct Ev {
+    status: String,
+    family: String,
+    tree: String,
+}
+
+fn clip(s: &str, n: usize) -> String {
+    if s.chars().count() > n { format!("{}… ({} bytes)", s.chars().take(n).collect::<String>(), s.len()) } else { s.to_string() }
+}
+
+impl Worker {
+    /// Evaluates one rendered input on the real parser (all checks that concern a single string)
+    /// and compares budget verdict and family with the model.
+    fn eval_string(&mut self, x: &str, label: &str, o: &mut Outcome) -> Option<Ev> {
+        o.strings += 1;
+        let v = match self.child.eval(x) {
+            Ok(v) => v,
+            Err(EvalErr::Died(st)) => {
+                o.failures.push((
+                    "process-abort".into(),
+                    format!("the process running the parser died while parsing the {label} input ({} bytes) on a {} KiB stack: stack overflow or abort", x.len(), self.child.stack / 1024),
+                    "Ok or Err".into(),
+                    format!("child exit: {st}; input: {}", clip(x, 300)),
+                ));
+                return None;
+            }
+            Err(EvalErr::Timeout) => {
+                o.failures.push((
+                    "no-termination-within-bound".into(),
+                    format!("parsing the {label} input ({} bytes) did not finish within {} s (retried with {} s)", x.len(), EVAL_TIMEOUT.as_secs(), EVAL_TIMEOUT.as_secs() * 3),
+                    "terminates".into(),
+                    format!("timeout; input: {}", clip(x, 300)),
+                ));
+                return None;
+            }
+        };
+        if let Some(f) = v.get("fatal") {
+            o.failures.push(("parser-thread-died".into(), format!("{label}: {f}"), "Ok or Err".into(), clip(x, 300)));
+            return None;
+        }
+        let g = |k: &str| v.get(k).and_then(|s| s.as_str()).unwrap_or("").to_string();
+        for p in v.get("problems").and_then(|p| p.as_array()).cloned().unwrap_or_default() {
+            let s = |k: &str| p.get(k).and_then(|s| s.as_str()).unwrap_or("").to_string();
+            o.failures.push((s("key"), format!("{} [{label} input: {}]", s("what"), clip(x, 300)), s("expected"), s("observed")));
+        }
+        o.max_micros = o.max_micros.max(v.get("micros").and_then(|m| m.as_u64()).unwrap_or(0));
+        let kip = g("kip");
+        let ev = Ev { status: if kip == "ok" { "ok".into() } else { "err".into() }, family: g("family"), tree: g("tree") };
+        o.hits.push(format!("result:{}", if kip == "ok" { format!("ok-{}", ev.family) } else { kip.clone() }));
+        if label == "base" || label == "raw" || label == "#0" {
+            o.base_result = kip.clone();
+        }
+
+        // ---- correspondence with the Lean model ------------------------------------------------
+        if let Some(m) = self.model.as_mut() {
+            let mut cps: Vec<u32> = x.chars().filter(|c| !c.is_ascii() && c.is_alphanumeric()).map(|c| c as u32).collect();
+            cps.sort_unstable();
+            cps.dedup();
+            let alnum = if cps.is_empty() { "-".to_string() } else { vh_common::join(cps, ",") };
+            let req = format!("k {} {}", if x.is_empty() { "-".to_string() } else { hex(x.as_bytes()) }, alnum);
+            let ans = m.ask(&req);
+            o.model_compared += 1;
+            let mut it = ans.split(' ');
+            let (mb, mf) = (it.next().unwrap_or(""), it.next().unwrap_or(""));
+            let ib = match kip.as_str() {
+                "err:too_long" => "too_long",
+                "err:too_deep" => "too_deep",
+                "err:resource_exhausted" => "resource_exhausted",
+                _ => "ok",
+            };
+            let impl_desc = format!("budget={ib} kip={kip} kql={} kml={} meta={}", g("kql"), g("kml"), g("meta"));
+            if mb != ib {
+                o.disagreements.push((format!("budget verdict differs on the {label} input {}", clip(x, 200)), ans.clone(), impl_desc.clone()));
+            } else if ib == "ok" {
+                // family: whatever a parser accepted must be of the family the model names
+                let mut bad = false;
+                for (fam, r) in [("kql", g("kql")), ("kml", g("kml")), ("meta", g("meta"))] {
+                    if r == "ok" && mf != fam {
+                        bad = true;
+                    }
+                }
+                if kip == "ok" && mf != ev.family {
+                    bad = true;
+                }
+                if bad {
+                    o.disagreements.push((format!("family differs on the {label} input {}", clip(x, 200)), ans.clone(), impl_desc));
+                }
+            }
+        }
+        Some(ev)
+    }
+
+    fn run_case(&mut self, ops: &[String]) -> Outcome {
+        let mut o = Outcome::default();
+        let Some(case) = ops_to_case(ops) else {
+            o.hits.push("case:malformed-ops".into());
+            return o;
+        };
+        match case {
+            Case::Raw(s) => {
+                if let Some(ev) = self.eval_string(&s, "raw", &mut o) {
+                    o.nontrivial = ev.status == "ok";
+                    o.canon = format!("{}|{}", ev.status, ev.tree);
+                    if o.nontrivial {
+                        o.sample = Some(json!({"input": clip(&s, 200), "family": ev.family}));
+                    }
+                }
+            }
+            Case::Same { key, inputs } => {
+                let mut first: Option<(String, Ev)> = None;
+                for (n, x) in inputs.iter().enumerate() {
+                    let Some(ev) = self.eval_string(x, &format!("#{n}"), &mut o) else { continue };
+                    match &first {
+                        None => {
+                            o.nontrivial = ev.status == "ok";
+                            o.canon = format!("{}|{}", ev.status, ev.tree);
+                            first = Some((x.clone(), ev));
+                        }
+                        Some((x0, e0)) => {
+                            if e0.status != ev.status || e0.tree != ev.tree {
+                                o.failures.push((
+                                    key.clone(),
+                                    format!("two spellings that differ only in trivia / keyword case parse differently: {:?} vs {:?}", clip(x0, 300), clip(x, 300)),
+                                    format!("{} {}", e0.status, clip(&e0.tree, 300)),
+                                    format!("{} {}", ev.status, clip(&ev.tree, 300)),
+                                ));
+                            }
+                        }
+                    }
+                }
+            }
+            Case::Tok { flags, vseed, toks } => {
+                let mut vr = Rng::new(vseed);
+                let base = mutate::render(&toks);
+                let Some(b) = self.eval_string(&base, "base", &mut o) else { return o };
+                o.nontrivial = b.status == "ok";
+                o.canon = format!("{}|{}", b.status, b.tree);
+                if o.nontrivial {
+                    o.sample = Some(json!({"input": clip(&base, 240), "family": b.family}));
+                }
+                // (label, failure key, rendered text, the separators used when the variant is a trivia variant)
+                let mut variants: Vec<(&str, &str, String, Option<(Vec<Tok>, mutate::Seps)>)> = Vec::new();
+                if flags.contains('m') {
+                    let s1 = mutate::trivia_seps(toks.len(), &mut vr, false);
+                    variants.push(("trivia", "trivia-changes-parse", mutate::render_with(&toks, &s1), Some((toks.clone(), s1))));
+                    variants.push(("squeezed", "separator-removal-changes-parse", mutate::render_squeezed(&toks), None));
+                    let s2 = mutate::trivia_seps(toks.len(), &mut vr, true);
+                    variants.push(("unicode-whitespace", "unicode-whitespace-changes-parse", mutate::render_with(&toks, &s2), Some((toks.clone(), s2))));
+                }
+                if flags.contains('c') {
+                    let flipped = mutate::flip_case(&toks, &mut vr);
+                    variants.push(("case", "keyword-case-changes-parse", mutate::render(&flipped), None));
+                    if flags.contains('m') {
+                        let flipped = mutate::flip_case(&toks, &mut vr);
+                        let s3 = mutate::trivia_seps(toks.len(), &mut vr, false);
+                        variants.push(("case+trivia", "case-and-trivia-change-parse", mutate::render_with(&flipped, &s3), None));
+                    }
+                }
+                for (label, key, text, seps) in variants {
+                    if text == base {
+                        continue;
+                    }
+                    let Some(v) = self.eval_string(&text, label, &mut o) else { continue };
+                    if v.status != b.status || v.tree != b.tree {
+                        // locate: which single gap, changed alone, already changes the parse?
+                        let mut located = String::new();
+                        let n_located = self.located_per_key.entry(key.to_string()).or_insert(0);
+                        *n_located += 1;
+                        let do_locate = *n_located <= 3;
+                        if let (Some((tk, sp)), true) = (seps, do_locate) {
+                            let plain = mutate::Seps { lead: String::new(), between: vec![" ".to_string(); tk.len().saturating_sub(1)], trail: String::new() };
+                            let mut tried = 0;
+                            for j in 0..sp.between.len() {
+                                if sp.between[j] == " " || tried >= 400 {
+                                    continue;
+                                }
+                                tried += 1;
+                                let mut one = plain.clone();
+                                one.between[j] = sp.between[j].clone();
+                                let t1 = mutate::render_with(&tk, &one);
+                                let mut scratch = Outcome::default();
+                                if let Some(e1) = self.eval_string(&t1, "located", &mut scratch) {
+                                    if e1.status != b.status || e1.tree != b.tree {
+                                        located = format!(
+                                            " ; already with a single change: the gap between `{}` and `{}` written as {:?} instead of one space gives `{}`",
+                                            tk[j].text, tk[j + 1].text, sp.between[j], e1.status
+                                        );
+                                        break;
+                                    }
+                                }
+                            }
+                        }
+                        o.failures.push((
+                            key.to_string(),
+                            format!("the {label} variant parses differently from the base rendering{located}; base: {} ; variant: {}", clip(&base, 300), clip(&text, 400)),
+                            format!("{} {}", b.status, clip(&b.tree, 300)),
+                            format!("{} {}", v.status, clip(&v.tree, 300)),
+                        ));
+                    }
+                }
+            }
+        }
+        if let Some(want) = expectation(ops) {
+            if !o.base_result.is_empty() && o.base_result != want {
+                o.failures.push(("corpus-expectation".into(), "parse_kip's answer for this corpus case changed".into(), want, o.base_result.clone()));
+            }
+        }
+        o
+    }
+}
+
+// ---------------------------------------------------------------------------------------------
+// generation
+// ---------------------------------------------------------------------------------------------
+
+fn sentence(r: &mut Rng, naughty: bool) -> (Vec<Tok>, Vec<&'static str>) {
+    let fuel = *r.pick(&[6, 12, 12, 25, 60]);
+    let which = r.below(3);
+    let mut g = Gen::new(r, fuel);
+    g.naughty = naughty;
+    match which {
+        0 => g.kql(),
+        1 => g.kml(),
+        _ => g.meta(),
+    }
+    (g.out, g.feats)
+}
+
+/// The case of index `i` (deterministic in `(seed, i)`), with its histogram tags.
+fn generate(seed: u64, i: u64, thorough: bool) -> (Case, Vec<String>) {
+    let mut r = Rng::for_case(seed, i);
+    let mut tags: Vec<String> = Vec::new();
+    let k = r.below(100);
+    let case = if k < 34 {
+        let (toks, feats) = sentence(&mut r, false);
+        tags.push("gen:sentence".into());
+        tags.extend(feats.iter().map(|f| format!("g:{f}")));
+        Case::Tok { flags: "cm".into(), vseed: r.next_u64() % 1_000_000, toks }
+    } else if k < 42 {
+        let (toks, feats) = sentence(&mut r, true);
+        tags.push("gen:sentence-with-rule-violations".into());
+        tags.extend(feats.iter().map(|f| format!("g:{f}")));
+        Case::Tok { flags: "cm".into(), vseed: r.next_u64() % 1_000_000, toks }
+    } else if k < 66 {
+        let (toks, _) = sentence(&mut r, false);
+        let (donor, _) = sentence(&mut r, false);
+        let mut v = toks;
+        let n = 1 + r.usize(3);
+        for _ in 0..n {
+            let (w, tag) = mutate::mutate_tokens(&v, &donor, &mut r);
+            v = w;
+            tags.push(tag.to_string());
+        }
+        tags.push("gen:token-mutation".into());
+        Case::Tok { flags: "m".into(), vseed: r.next_u64() % 1_000_000, toks: v }
+    } else if k < 77 {
+        let (toks, _) = sentence(&mut r, false);
+        let uni = r.chance(1, 4);
+        let mut s = if r.chance(1, 2) { mutate::render(&toks) } else { mutate::render_trivia(&toks, &mut r, uni) };
+        let n = 1 + r.usize(3);
+        for _ in 0..n {
+            let (w, tag) = mutate::mutate_chars(&s, &mut r);
+            s = w;
+            tags.push(tag.to_string());
+        }
+        tags.push("gen:char-mutation".into());
+        Case::Raw(s)
+    } else if k < 85 {
+        tags.push("gen:arbitrary-unicode".into());
+        Case::Raw(mutate::arbitrary_unicode(&mut r))
+    } else if k < 93 {
+        // nests around and beyond the limit
+        let depth = match r.below(10) {
+            0..=2 => 3 + r.usize(20),
+            3..=5 => 58 + r.usize(7), // 58..64
+            6 | 7 => 65 + r.usize(4),
+            8 => 64,
+            _ => 70 + r.usize(200),
+        };
+        let kind = r.below(9);
+        let mut g = Gen::new(&mut r, 0);
+        let name = g.deep(kind, depth);
+        tags.push(format!("gen:{name}"));
+        tags.push(format!("depth:{}", if depth > 64 { "beyond-limit" } else if depth >= 58 { "58..64" } else { "shallow" }));
+        Case::Tok { flags: "cm".into(), vseed: i, toks: g.out }
+    } else if k < 96 {
+        let n = match r.below(6) {
+            0 => 1 + r.usize(10),
+            1 | 2 => 60 + r.usize(8),
+            3 => 64,
+            4 => 200 + r.usize(300),
+            _ => if thorough { 20_000 } else { 3_000 },
+        };
+        let kind = r.below(4);
+        let mut g = Gen::new(&mut r, 0);
+        let name = g.bracketless(kind, n);
+        tags.push(format!("gen:{name}"));
+        Case::Tok { flags: "cm".into(), vseed: i, toks: g.out }
+    } else if k < 98 {
+        let n = if thorough { *r.pick(&[50usize, 400, 2000]) } else { *r.pick(&[50usize, 300]) };
+        let kind = r.below(3);
+        let mut g = Gen::new(&mut r, 0);
+        let name = g.wide(kind, n);
+        tags.push(format!("gen:{name}"));
+        Case::Tok { flags: "cm".into(), vseed: i, toks: g.out }
+    } else {
+        // around and beyond the length limit, and absurd depths
+        let (toks, _) = sentence(&mut r, false);
+        let base = mutate::render(&toks);
+        let limit = child::DOC_MAX_LEN;
+        let s = match r.below(6) {
+            0 => {
+                tags.push("gen:length-exactly-limit".into());
+                format!("{base}{}", " ".repeat(limit.saturating_sub(base.len())))
+            }
+            1 => {
+                tags.push("gen:length-limit-plus-1".into());
+                format!("{base}{}", " ".repeat(limit + 1 - base.len().min(limit)))
+            }
+            2 => {
+                tags.push("gen:length-limit-plus-1-multibyte".into());
+                // 3-byte characters: fewer chars than the limit, more bytes
+                format!("{base} //{}", "中".repeat(limit / 3 + 1))
+            }
+            3 => {
+                tags.push("gen:long-comment-of-brackets".into());
+                format!("// {}\n{base}", "(".repeat(limit - base.len() - 8))
+            }
+            4 => {
+                tags.push("gen:long-string-of-brackets".into());
+                format!("DESCRIBE TYPE \"{}\"", "[".repeat(limit - 40))
+            }
+            _ => {
+                tags.push("gen:absurd-depth".into());
+                let c = *r.pick(&["(", "[", "{"]);
+                format!("FIND(?x) WHERE {{ ?x {{ a: {} }} }}", c.repeat(100_000))
+            }
+        };
+        Case::Raw(s)
+    };
+    (case, tags)
+}
+
+// ---------------------------------------------------------------------------------------------
+// main
+// ---------------------------------------------------------------------------------------------
+
+struct Done {
+    index: u64,
+    name: String,
+    ops: Vec<String>,
+    tags: Vec<String>,
+    out: Outcome,
+    /// shrunken replays of what went wrong: (kind, key/what, ops, a, b)
+    shrunk: Vec<(String, Vec<String>, Outcome)>,
+}
+
+fn shrink_failure(w: &mut Worker, ops: &[String], key: &str, disagreement: bool) -> (Vec<String>, Outcome) {
+    if ops.len() > 4000 {
+        // huge inputs: shrinking token by token is not worth the time; keep as is
+        return (ops.to_vec(), w.run_case(ops));
+    }
+    let key = key.to_string();
+    let small = shrink(
+        ops.to_vec(),
+        |cand: &[String]| {
+            if cand.first().is_none_or(|l| !l.starts_with("mode ")) {
+                return false;
+            }
+            let o = w.run_case(cand);
+            if disagreement { !o.disagreements.is_empty() } else { o.failures.iter().any(|f| f.0 == key) }
+        },
+        250,
+    );
+    let o = w.run_case(&small);
+    (small, o)
+}
+
+fn finish(w: &mut Worker, index: u64, name: String, ops: Vec<String>, tags: Vec<String>) -> Done {
+    let out = w.run_case(&ops);
+    let mut shrunk = Vec::new();
+    let mut keys: Vec<String> = out.failures.iter().map(|f| f.0.clone()).collect();
+    keys.sort();
+    keys.dedup();
+    for k in keys.iter().take(3) {
+        let n = w.shrunk_per_key.entry(k.clone()).or_insert(0);
+        *n += 1;
+        if *n > 2 {
+            continue;
+        }
+        let (s, o) = shrink_failure(w, &ops, k, false);
+        shrunk.push((k.clone(), s, o));
+    }
+    if !out.disagreements.is_empty() {
+        let n = w.shrunk_per_key.entry("<disagreement>".into()).or_insert(0);
+        *n += 1;
+        if *n <= 3 {
+            let (s, o) = shrink_failure(w, &ops, "", true);
+            shrunk.push(("<disagreement>".into(), s, o));
+        } else {
+            shrunk.push(("<disagreement>".into(), ops.clone(), out.clone()));
+        }
+    }
+    Done { index, name, ops, tags, out, shrunk }
+}
+
 fn main() {
-    let a = vh_common::Args::parse();
-    let r = vh_common::Report::new("C15", &a, "stub");
-    r.write(&a);
+    let argv: Vec<String> = std::env::args().collect();
+    if argv.len() >= 3 && argv[1] == "--child" {
+        child::child_main(argv[2].parse().expect("stack bytes"));
+        return;
+    }
+    let args = Args::parse();
+    let t0 = Instant::now();
+    let stack: usize = args.extra.get("stack").and_then(|s| s.parse().ok()).unwrap_or(PARSER_STACK);
+    let mut report = Report::new(
+        "C15",
+        &args,
+        "a case is non-trivial when parse_kip accepts its base input and returns a tree; distinct = distinct encoded trees \
+         (refusals, syntax errors and budget refusals are evaluated and compared but not counted as non-trivial)",
+    );
+    report.max_samples = 8;
+
+    if anda_kip::MAX_KIP_INPUT_LEN != child::DOC_MAX_LEN || anda_kip::MAX_KIP_NESTING_DEPTH as i64 != child::DOC_MAX_DEPTH {
+        report.oracle_failure(
+            "limits-differ-from-documented",
+            "MAX_KIP_INPUT_LEN / MAX_KIP_NESTING_DEPTH are not the documented 256 KiB / 64",
+            &[],
+            "262144 64",
+            &format!("{} {}", anda_kip::MAX_KIP_INPUT_LEN, anda_kip::MAX_KIP_NESTING_DEPTH),
+        );
+    }
+
+    // ---- the work list ---------------------------------------------------------------------
+    let mut work: Vec<(u64, String, Vec<String>, Vec<String>)> = Vec::new();
+    if let Some(rp) = &args.replay {
+        work.push((0, "replay".into(), read_replay(rp), vec!["replay".into()]));
+    } else {
+        if let Some(dir) = &args.corpus {
+            for (name, ops) in read_corpus(dir) {
+                work.push((work.len() as u64, format!("corpus:{name}"), ops, vec!["corpus".into()]));
+            }
+        }
+        let n_cases = args.extra.get("cases").and_then(|s| s.parse().ok()).unwrap_or(args.budget(9_000, 400_000));
+        let thorough = args.thorough() || args.focus.is_some();
+        let base = work.len() as u64;
+        for i in 0..n_cases {
+            let (case, tags) = generate(args.seed, i, thorough);
+            work.push((base + i, format!("gen:{i}"), case_to_ops(&case), tags));
+        }
+    }
+
+    // ---- workers ---------------------------------------------------------------------------
+    let n_workers = std::thread::available_parallelism().map(|n| n.get()).unwrap_or(4).clamp(1, 12).min(work.len().max(1));
+    let work = std::sync::Arc::new(work);
+    let next = std::sync::Arc::new(std::sync::atomic::AtomicUsize::new(0));
+    let mut handles = Vec::new();
+    for _ in 0..n_workers {
+        let work = work.clone();
+        let next = next.clone();
+        let args = args.clone();
+        handles.push(std::thread::spawn(move || {
+            let mut w = Worker { child: ChildProc::spawn(stack), model: ModelProc::from_args(&args), shrunk_per_key: BTreeMap::new(), located_per_key: BTreeMap::new() };
+            let mut done = Vec::new();
+            loop {
+                let i = next.fetch_add(1, std::sync::atomic::Ordering::SeqCst);
+                if i >= work.len() {
+                    break;
+                }
+                let (index, name, ops, tags) = work[i].clone();
+                done.push(finish(&mut w, index, name, ops, tags));
+            }
+            (done, w.child.respawns)
+        }));
+    }
+    let mut all: Vec<Done> = Vec::new();
+    let mut respawns = 0;
+    for h in handles {
+        let (d, r) = h.join().expect("worker");
+        all.extend(d);
+        respawns += r;
+    }
+    all.sort_by_key(|d| d.index);
+
+    // ---- report ----------------------------------------------------------------------------
+    let mut strings = 0u64;
+    let mut max_micros = 0u64;
+    let mut slowest = String::new();
+    let mut found: BTreeMap<String, Vec<(String, Vec<String>, String, String)>> = BTreeMap::new();
+    for d in &all {
+        report.case(&d.out.canon, d.out.nontrivial);
+        report.model_compared += d.out.model_compared;
+        strings += d.out.strings;
+        if d.out.max_micros > max_micros {
+            max_micros = d.out.max_micros;
+            slowest = d.name.clone();
+        }
+        for t in &d.tags {
+            report.hit(t);
+        }
+        if d.out.max_micros > 200_000 {
+            report.notes.push(format!("slow: {} {:?} {} us, {} ops", d.name, d.tags, d.out.max_micros, d.ops.len()));
+        }
+        for h in &d.out.hits {
+            report.hit(h);
+        }
+        if let Some(s) = &d.out.sample {
+            if d.index % 7 == 0 {
+                report.sample(s.clone());
+            }
+        }
+        for (key, small, o) in &d.shrunk {
+            if key == "<disagreement>" {
+                if let Some((what, m, i)) = o.disagreements.first().or(d.out.disagreements.first()) {
+                    report.disagreement(&format!("{} [{}]", what, d.name), small, m, i);
+                }
+            } else if let Some(f) = o.failures.iter().find(|f| &f.0 == key).or(d.out.failures.iter().find(|f| &f.0 == key)) {
+                found.entry(f.0.clone()).or_default().push((format!("{} [{}]", f.1, d.name), small.clone(), f.2.clone(), f.3.clone()));
+            }
+        }
+        // failures that were not shrunk are still listed
+        let shrunk_keys: Vec<&String> = d.shrunk.iter().map(|s| &s.0).collect();
+        for f in &d.out.failures {
+            if !shrunk_keys.contains(&&f.0) {
+                found.entry(f.0.clone()).or_default().push((format!("{} [{}]", f.1, d.name), d.ops.clone(), f.2.clone(), f.3.clone()));
+            }
+        }
+    }
+    // `Report` keeps the first 20 failures: list one of every kind first, then the second of every kind, …
+    for (k, v) in &found {
+        report.hit_n(&format!("failure:{k}"), v.len() as u64);
+    }
+    for round in 0..3 {
+        for (k, v) in &found {
+            if let Some((what, ops, e, ob)) = v.get(round) {
+                report.oracle_failure(k, what, ops, e, ob);
+            }
+        }
+    }
+    // measured, not a verdict: how the work grows with the number of clauses of one MUTATE block
+    if args.replay.is_none() {
+        let mut probe = ChildProc::spawn(stack);
+        let mut scaling = Vec::new();
+        for n in [500usize, 1000, 2000] {
+            let mut t = String::from("MUTATE{");
+            for i in 0..n {
+                t.push_str(&format!("CREATE CONCEPT ?h{i:x}{{}}"));
+            }
+            t.push('}');
+            if let Ok(v) = probe.eval(&t) {
+                scaling.push(json!({"clauses": n, "bytes": t.len(), "micros_all_entry_points": v.get("micros")}));
+            }
+        }
+        report.measured.insert("work_scaling_mutate_clauses".into(), json!(scaling));
+    }
+    report.measured.insert("strings_parsed".into(), json!(strings));
+    report.measured.insert("parser_thread_stack_bytes".into(), json!(stack));
+    report.measured.insert("slowest_parse_micros".into(), json!(max_micros));
+    report.measured.insert("slowest_case".into(), json!(slowest));
+    report.measured.insert("child_process_restarts".into(), json!(respawns));
+    report.measured.insert("workers".into(), json!(n_workers));
+    report.measured.insert("harness_seconds".into(), json!(t0.elapsed().as_secs_f64()));
+    report.notes.push(
+        "parser proper (recursive descent): tested by the oracle on generated inputs, not proved; the theorems cover the budget pre-scan and the head-keyword classification".into(),
+    );
+    report.write(&args);
 }
